@@ -2,7 +2,8 @@
    Models: Model/Layers.v (protocol, composition, listeners), Model/LayerSem.v (script interface of
    the transparency / listener modes). Only statements, `exact`, and Print Assumptions. *)
 From TR Require Import Lib.Base Model.Layers Proof.Layers.
-From TR Require Model.Bulkhead Model.Circuit Model.RateLimiter Model.Fallback Proof.RateLimiter Proof.Transparent.
+From TR Require Model.Bulkhead Model.Circuit Model.RateLimiter Model.Fallback Model.Retry Model.TimeLimiter Model.Cache
+     Model.Reconnect Model.Coalesce Model.Chaos Model.LayerSem Proof.RateLimiter Proof.Transparent.
 
 (* ---- Readiness ------------------------------------------------------------------------------ *)
 (* Sequential client. For EVERY stack of layers (any depth, any order of the five call disciplines
@@ -155,6 +156,102 @@ Theorem C20_stack_passes :
 Proof. exact @stack_passes. Qed.
 Print Assumptions C20_stack_passes.
 
+(* Per-layer instances, from the per-layer models (those of C01/C07, C03/C04/C09, C02/C15, C10, C11,
+   C06, C17, C05, C13, C19), each over ANY non-triggering state of its model -- not only the initial
+   one. [LayerSem.sem_of_X] runs ONE request of the wrapped service through the layer's model. *)
+Theorem C20_bulkhead_passes :
+  forall (E : Type) (w : E -> E) (made : Z -> E) (c : Bulkhead.cfg) (s : Bulkhead.st) (i : nat),
+    Bulkhead.cs s i = Bulkhead.Created -> Bulkhead.gate s i = None -> (1 <= Bulkhead.free s)%nat ->
+    passes w (LayerSem.sem_of_bulkhead w made c s i).
+Proof. exact @Transparent.bulkhead_passes. Qed.
+Print Assumptions C20_bulkhead_passes.
+
+Theorem C20_circuit_passes :
+  forall (E : Type) (w : E -> E) (made : Z -> E) (cf : Circuit.cfg) (f : bool) (s : Circuit.st) (i : nat),
+    Circuit.cs s i = Circuit.Created -> Circuit.gate s i = None ->
+    snd (Circuit.try_acquire (Circuit.now s) cf (Circuit.circ s)) = true ->
+    passes w (LayerSem.sem_of_circuit w made cf f s i).
+Proof. exact @Transparent.circuit_passes. Qed.
+Print Assumptions C20_circuit_passes.
+
+Theorem C20_ratelimiter_passes :
+  forall (E : Type) (w : E -> E) (made : Z -> E) (c : RateLimiter.cfg) (s : RateLimiter.st) (i : nat),
+    RateLimiter.cs s i = RateLimiter.Created -> RateLimiter.gate s i = None ->
+    snd (RateLimiter.try_acquire c (RateLimiter.now s) (RateLimiter.lm s)) = RateLimiter.AOk None ->
+    passes w (LayerSem.sem_of_ratelimiter w made c s i).
+Proof. exact @Transparent.ratelimiter_passes. Qed.
+Print Assumptions C20_ratelimiter_passes.
+
+Theorem C20_timelimiter_passes :
+  forall (E : Type) (w : E -> E) (made : Z -> E) (c : TimeLimiter.cfg) (i : nat) (t1 t2 : Z),
+    t1 < TimeLimiter.deadline c i t1 -> t2 < TimeLimiter.deadline c i t1 ->
+    passes w (LayerSem.sem_of_timelimiter w made c i t1 t2).
+Proof. exact @Transparent.timelimiter_passes. Qed.
+Print Assumptions C20_timelimiter_passes.
+
+Theorem C20_coalesce_passes :
+  forall (E : Type) (w : E -> E) (made : Z -> E) (s : Coalesce.st) (i k : nat),
+    Coalesce.cs s i = Coalesce.Idle -> Coalesce.lookup k (Coalesce.reqs s) = None ->
+    Coalesce.gate s i = None -> Coalesce.bomb s i = false ->
+    passes w (LayerSem.sem_of_coalesce w made s i k).
+Proof. exact @Transparent.coalesce_passes. Qed.
+Print Assumptions C20_coalesce_passes.
+
+Theorem C20_cache_miss_passes :
+  forall (E : Type) (w : E -> E) (made : Z -> E) (c : Cache.cfg) (s : Cache.st) (i svc : nat) (k : Z),
+    Cache.cs s i = Cache.Fresh -> Cache.gate s i = None ->
+    (forall v, snd (Cache.store_get c (Cache.now s) (Cache.tick s) (Cache.stores s (Cache.sid_of c svc)) k)
+               <> Cache.Hit v) ->
+    passes w (LayerSem.sem_of_cache w made c s i svc k).
+Proof. exact @Transparent.cache_passes. Qed.
+Print Assumptions C20_cache_miss_passes.
+
+Theorem C20_fallback_passes :
+  forall (E : Type) (w : E -> E) (made : Z -> E) (st : Fallback.strategy Z Z E) (p : E -> bool)
+         (backup : Z -> Z + E),
+    (forall e, p e = false) -> passes w (LayerSem.sem_of_fallback w made st (Some p) backup).
+Proof. exact @Transparent.fallback_passes. Qed.
+Print Assumptions C20_fallback_passes.
+
+Theorem C20_retry_passes :
+  forall (E : Type) (c : Retry.cfg E) (hb : bool) (max : nat) (ready : nat -> Z * option E) (grant : nat -> bool),
+    (forall e, Retry.should_retry c e = false) ->
+    passes (fun e => e) (LayerSem.sem_of_retry c hb max ready grant).
+Proof. exact @Transparent.retry_passes. Qed.
+Print Assumptions C20_retry_passes.
+
+Theorem C20_reconnect_passes :
+  forall (E : Type) (w : E -> E) (made : Z -> E) (c : Reconnect.cfg E) (ready : nat -> Z * option E) (fuel : nat),
+    (forall e, Reconnect.should_reconnect c e = false) ->
+    passes w (LayerSem.sem_of_reconnect w made c ready fuel).
+Proof. exact @Transparent.reconnect_passes. Qed.
+Print Assumptions C20_reconnect_passes.
+
+Theorem C20_chaos_zero_rates_passes :
+  forall (E : Type) (made : Z -> E) (c : Chaos.config) (t_end i t : Z) (st : list Z),
+    Chaos.erate c = Some 0 -> Chaos.lrate c = Some 0 -> t <= t_end ->
+    passes (fun e : E => e) (LayerSem.sem_of_chaos (fun e => e) made c t_end i t st).
+Proof. exact @Transparent.chaos_passes. Qed.
+Print Assumptions C20_chaos_zero_rates_passes.
+
+(* The table run_script executes for modes 0 and 4: EVERY entry passes (ten layers are the per-layer
+   models in the driver's non-triggering configuration; hedge, adaptive limiter and executor are
+   pass_through by definition) ... *)
+Theorem C20_every_table_entry_passes :
+  forall id : Z, passes LayerSem.wrapd (LayerSem.sem_of id).
+Proof. exact Transparent.sem_of_passes. Qed.
+Print Assumptions C20_every_table_entry_passes.
+
+(* ... hence, at trace level, for EVERY list of layer ids (any depth, any order) and every scripted
+   request list, the mode-0 model trace is: one call of the wrapped service, the request unchanged,
+   the scripted outcome unchanged, an error in exactly n pass-through wrappers. *)
+Theorem C20_run_transparent_spec :
+  forall (ids : list Z) (reqs : list (Z * Z * Z)),
+    LayerSem.run_transparent ids reqs =
+    concat (map (fun r => let '(req, ok, v) := r in [1; req; if ok =? 0 then 0 else 1; v]) reqs).
+Proof. exact Transparent.run_transparent_spec. Qed.
+Print Assumptions C20_run_transparent_spec.
+
 (* ---- Listeners ------------------------------------------------------------------------------- *)
 (* [run_steps guarded ls steps cur acc] COMPUTES how a call path (events emitted, outcome fixed
    when the inner call returns) ends, through the listener invocations: a panic escaping an
@@ -195,6 +292,23 @@ Theorem C20_bare_callbacks_refuted :
 Proof. exact bare_callbacks_refuted. Qed.
 Print Assumptions C20_bare_callbacks_refuted.
 
+(* Trace level, mode 4 (listeners on every layer of a stack, what run_script executes): the whole
+   trace -- outcomes and absolute per-layer / per-listener / per-event-kind counts -- of EVERY script
+   is the trace of the same script with no panicking listener, and its outcome part is the
+   transparent one. *)
+Theorem C20_l4_trace_mask_independent :
+  forall (ids : list Z) (nl : nat) (mask : Z) (reqs : list (Z * Z * Z)),
+    LayerSem.l4_trace ids nl mask reqs = LayerSem.l4_trace ids nl 0 reqs.
+Proof. exact Transparent.l4_trace_mask_independent. Qed.
+Print Assumptions C20_l4_trace_mask_independent.
+
+Theorem C20_l4_outcomes_transparent :
+  forall (ids : list Z) (ls : list listener) (reqs : list (Z * Z * Z)) (acc : list (list (Z * list lresult))),
+    fst (LayerSem.run_l4 ids ls reqs acc) = LayerSem.run_transparent ids reqs.
+Proof. exact Transparent.l4_outcomes_transparent. Qed.
+Print Assumptions C20_l4_outcomes_transparent.
+
+(* ---- kept from the first round ---------------------------------------------------------------- *)
 (* Transparency of the individually modelled layers in their non-triggering configuration
    (the per-layer models are those of C01/C07, C03/C04/C09, C02/C15 and C17; the other layers'
    transparency is established by the correspondence run, mode 0 of the C20 scripts). *)
